@@ -257,12 +257,14 @@ theorem frame_report_sound (T : ScopeTable) (S : Schema) (P : Frame) (h : C11.Ro
     · simp only at he
       split at he
       · cases he
-      · simp only [List.mem_singleton] at he; subst he
-        simp only [List.mem_flatten, List.mem_map] at hc
-        obtain ⟨l, ⟨col, hcol, rfl⟩, hcell⟩ := hc
-        have hm := (mem_cellsAt_iff _ _ _ _).mp hcell
-        obtain ⟨n, _, hn⟩ := List.mem_filterMap.mp hcol
-        exact Or.inl ⟨col, (col?_some hn).1, hm.1, hm.2.2⟩
+      · split at he
+        · cases he
+        · simp only [List.mem_singleton] at he; subst he
+          simp only [List.mem_flatten, List.mem_map] at hc
+          obtain ⟨l, ⟨col, hcol, rfl⟩, hcell⟩ := hc
+          have hm := (mem_cellsAt_iff _ _ _ _).mp hcell
+          obtain ⟨n, _, hn⟩ := List.mem_filterMap.mp hcol
+          exact Or.inl ⟨col, (col?_some hn).1, hm.1, hm.2.2⟩
     · cases he
   · -- columns
     simp only [List.mem_flatten, List.mem_map] at he
